@@ -304,14 +304,22 @@ def login_probe(pv):
             row['plugKind'] = 0          # not decodable under this version: never reacted to
     except Exception:
         pass
-    # ---- login success / set compression
+    # ---- login success: which of the two UUID formats does `read` accept
     try:
-        conn, r, ids = one('login success')
-        data = (b'\x00' * 16 if ctx.protocol_later_eq(707) else b'\x01u') + b'\x01n'
-        p, used = _read(r, ids[0], data + b'\xee')
-        r.react(p)
-        if used == len(data) and isinstance(conn.reactor, PlayingReactor) and not conn.written:
-            row['successKind'] = 1
+        kinds = []
+        for kind, data in ((1, b'\x00' * 16 + b'\x01n'), (0, b'\x01u\x01n')):
+            conn, r, ids = one('login success')
+            try:
+                p, used = _read(r, ids[0], data + b'\xee')
+                r.react(p)
+            except Exception:
+                continue
+            want = '00000000-0000-0000-0000-000000000000' if kind else 'u'
+            if used == len(data) and p.UUID == want and p.Username == 'n' \
+                    and isinstance(conn.reactor, PlayingReactor) and not conn.written:
+                kinds.append(kind)
+        if len(kinds) == 1:
+            row['successKind'] = kinds[0]
     except Exception:
         pass
     try:
@@ -396,8 +404,9 @@ def generate():
            '  VarInt-prefixed 128-byte arrays.',
            '* `plugReact`, `plugKind`: `none`/0 = a plugin request is not decodable (never reacted to); `some id`/1 = `react`',
            '  queued exactly one packet (not forced) named "login plugin response" with fields `05 00`, written with `id`.',
-           '* `successKind`: 1 = "login success" was read completely (UUID as 16 bytes from 707 on, else a String) and the',
-           '  reactor became a `PlayingReactor`; `setCompKind`: 1 = threshold 256 read and set, compression enabled. -/',
+           '* `successKind`: "login success" is read completely and the reactor becomes a `PlayingReactor` for exactly one of',
+           '  the two formats: 1 = UUID as 16 bytes, 0 = UUID as a String (2 = neither or both);',
+           '  `setCompKind`: 1 = threshold 256 read and set, compression enabled. -/',
            'structure LoginProbe where',
            '  v : Nat', '  lsId : Nat', '  discCb : Nat', '  encReqCb : Nat', '  successCb : Nat', '  setCompCb : Nat',
            '  plugReqCb : Option Nat', '  encResp : Nat', '  encKind : Nat', '  plugRespId : Nat',
